@@ -52,6 +52,23 @@ def gen_guard(eng, res, fi, rule="R-GEN-GUARD"):
     return P
 
 
+def _plain_range(cand):
+    """range(0, len(np.asarray(v))) is range(len(v)): an explicit start 0, and an array view of a list has the list's length"""
+    import copy as _copy
+
+    if not (isinstance(cand, ast.Call) and callee_name(cand) == "range" and not cand.keywords):
+        return cand
+    cand = _copy.deepcopy(cand)
+    if len(cand.args) == 2 and isinstance(cand.args[0], ast.Constant) and cand.args[0].value == 0:
+        cand.args = cand.args[1:]
+    if len(cand.args) == 1 and isinstance(cand.args[0], ast.Call) and callee_name(cand.args[0]) == "len" and len(cand.args[0].args) == 1:
+        inner = cand.args[0].args[0]
+        while isinstance(inner, ast.Call) and callee_name(inner) in ("asarray", "array", "list", "tuple") and len(inner.args) >= 1 and isinstance(inner.args[0], (ast.ListComp, ast.List, ast.Call, ast.Name, ast.Attribute)):
+            inner = inner.args[0]
+        cand.args[0].args[0] = inner
+    return cand
+
+
 def member(eng, res, P: Pick, produce_node, produced, rule="R-MEMBER"):
     """The produced object is generate() on self._molecules[i], i drawn over range(len(v)), v one traversal of self._molecules."""
     fi, flow, cfg = P.fi, P.flow, P.cfg
@@ -71,6 +88,7 @@ def member(eng, res, P: Pick, produce_node, produced, rule="R-MEMBER"):
     if ok:
         cand = idx.args[0] if idx.args else None
         v = None
+        cand = _plain_range(cand)
         ok2 = isinstance(cand, ast.Call) and callee_name(cand) in ("range",) and cand.args and isinstance(cand.args[0], ast.Call) and callee_name(cand.args[0]) == "len"
         if ok2:
             v = cand.args[0].args[0]
